@@ -33,6 +33,10 @@ FLAVOURS = {
         "CC": os.path.join(VERIF, "mc", "native", "vcc"),
         "LDSHARED": os.path.join(VERIF, "mc", "native", "vcc") + " -shared",
     },
+    "fault": {
+        "CC": os.path.join(VERIF, "mc", "native", "vfcc"),
+        "LDSHARED": os.path.join(VERIF, "mc", "native", "vfcc") + " -shared",
+    },
 }
 
 
@@ -54,6 +58,8 @@ def _src_hash(flavour):
     if flavour == "sched":
         for f in ("vcc", "vsched.c"):
             files.append(os.path.join(VERIF, "mc", "native", f))
+    if flavour == "fault":
+        files.append(os.path.join(VERIF, "mc", "native", "vfcc"))
     for f in files:
         if not os.path.isfile(f):
             continue
@@ -110,6 +116,7 @@ def build(tag, flavour="normal", use_cache=True, log=None):
         env = dict(os.environ)
         env.update(FLAVOURS[flavour])
         env.pop("PYTHONPATH", None)
+        env.pop("LD_PRELOAD", None)            # a driver that runs under a sanitizer runtime must not compile under it
         if flavour == "sched":
             env["VSCHED_DIR"] = os.path.join(VERIF, "mc", "native")
         lf = os.path.join(dst, "build.log")
